@@ -403,8 +403,8 @@ Proof.
   destruct (beq _ _); [apply total_err|]. destruct (hostname_too_long _); [apply total_err|apply total_ok].
 Qed.
 
-Lemma check_label_lengths_total s : total (check_label_lengths s).
-Proof. unfold check_label_lengths. destruct (labels_fit s); [apply total_ok|apply total_err]. Qed.
+Lemma check_label_lengths_total lc s : total (check_label_lengths lc s).
+Proof. unfold check_label_lengths. destruct (labels_fit s && labels_fit (lc s)); [apply total_ok|apply total_err]. Qed.
 
 Lemma normalize_hostname_total s : exists r, normalize_hostname s = Ok r.
 Proof.
@@ -455,13 +455,13 @@ Lemma total_bind {A B} (r : res A) (f : A -> res B) :
   total r -> (forall a, r = Ok a -> total (f a)) -> total (bind r f).
 Proof. intros [H1 H2] H. apply bind_not_panic; assumption. Qed.
 
-Lemma api_browse_total s : total (api_browse s).
+Lemma api_browse_total lc s : total (api_browse lc s).
 Proof.
   unfold api_browse. apply total_bind; [apply check_domain_suffix_total|].
   intros _ _. apply check_label_lengths_total.
 Qed.
 
-Lemma api_resolve_hostname_total s : total (api_resolve_hostname s).
+Lemma api_resolve_hostname_total lc s : total (api_resolve_hostname lc s).
 Proof.
   unfold api_resolve_hostname. apply total_bind; [apply check_hostname_total|].
   intros _ _. apply check_label_lengths_total.
@@ -557,8 +557,8 @@ Proof.
   eapply wfs_skipn_after; [apply valid_nca; exact Hv|exact P5|unfold DOT; lia].
 Qed.
 
-Lemma api_register_names_total full server sub :
-  nca full = true -> total (api_register_names full server sub).
+Lemma api_register_names_total lc full server sub :
+  nca full = true -> total (api_register_names lc full server sub).
 Proof.
   intros Hn. unfold api_register_names.
   apply total_bind; [apply check_service_name_total_nca; exact Hn|]. intros _ _.
@@ -578,8 +578,8 @@ Proof.
   intros H. inversion H; subst. auto.
 Qed.
 
-Lemma api_register_total ty nm host :
-  utf8_valid ty = true -> utf8_valid nm = true -> total (api_register ty nm host).
+Lemma api_register_total lc ty nm host :
+  utf8_valid ty = true -> utf8_valid nm = true -> total (api_register lc ty nm host).
 Proof.
   intros Hty Hnm. unfold api_register.
   destruct (si_names_total ty nm host) as [[[[tyd sub] full] server] E]. rewrite E. cbn [bind].
@@ -665,25 +665,47 @@ Proof.
   apply label_ok_inv. apply H. exact Hl.
 Qed.
 
-Lemma check_label_lengths_ok name : check_label_lengths name = Ok tt -> labels_fit name = true.
+Lemma check_label_lengths_ok lc name : check_label_lengths lc name = Ok tt -> labels_fit name = true.
 Proof. unfold check_label_lengths. destruct (labels_fit name); [reflexivity|discriminate]. Qed.
+
+Lemma check_label_lengths_ok_lower lc name :
+  check_label_lengths lc name = Ok tt -> labels_fit (lc name) = true.
+Proof.
+  unfold check_label_lengths. destruct (labels_fit name); [|discriminate].
+  destruct (labels_fit (lc name)); [reflexivity|discriminate].
+Qed.
 
 Lemma bind_ok_unit {B} (r : res unit) (f : unit -> res B) b : bind r f = Ok b -> r = Ok tt /\ f tt = Ok b.
 Proof. destruct r as [[]| | |]; simpl; try discriminate. auto. Qed.
 
 (* accepted by browse *)
-Lemma browse_accepted_encodable ty :
-  wf_bytes ty -> api_browse ty = Ok tt -> forallb label_ok (name_labels ty) = true.
+Lemma browse_accepted_encodable lc ty :
+  wf_bytes ty -> api_browse lc ty = Ok tt -> forallb label_ok (name_labels ty) = true.
 Proof.
   intros Hw H. unfold api_browse in H. apply bind_ok_unit in H as [_ H].
-  apply labels_fit_label_ok; [exact Hw|apply check_label_lengths_ok; exact H].
+  apply labels_fit_label_ok; [exact Hw|apply (check_label_lengths_ok lc); exact H].
 Qed.
 
-Lemma resolve_accepted_encodable h :
-  wf_bytes h -> api_resolve_hostname h = Ok tt -> forallb label_ok (name_labels h) = true.
+Lemma resolve_accepted_encodable lc h :
+  wf_bytes h -> api_resolve_hostname lc h = Ok tt -> forallb label_ok (name_labels h) = true.
 Proof.
   intros Hw H. unfold api_resolve_hostname in H. apply bind_ok_unit in H as [_ H].
-  apply labels_fit_label_ok; [exact Hw|apply check_label_lengths_ok; exact H].
+  apply labels_fit_label_ok; [exact Hw|apply (check_label_lengths_ok lc); exact H].
+Qed.
+
+(* ... and in the lower-cased spelling *)
+Lemma browse_accepted_encodable_lower lc ty :
+  wf_bytes (lc ty) -> api_browse lc ty = Ok tt -> forallb label_ok (name_labels (lc ty)) = true.
+Proof.
+  intros Hw H. unfold api_browse in H. apply bind_ok_unit in H as [_ H].
+  apply labels_fit_label_ok; [exact Hw|apply check_label_lengths_ok_lower; exact H].
+Qed.
+
+Lemma resolve_accepted_encodable_lower lc h :
+  wf_bytes (lc h) -> api_resolve_hostname lc h = Ok tt -> forallb label_ok (name_labels (lc h)) = true.
+Proof.
+  intros Hw H. unfold api_resolve_hostname in H. apply bind_ok_unit in H as [_ H].
+  apply labels_fit_label_ok; [exact Hw|apply check_label_lengths_ok_lower; exact H].
 Qed.
 
 (* ---- the type part of an accepted registration ---- *)
@@ -797,10 +819,10 @@ Qed.
 
 (* accepted by register: the full name, the type, the subtype and the host name are all
    encodable *)
-Lemma register_accepted_encodable ty nm host tyd sub full server :
+Lemma register_accepted_encodable lc ty nm host tyd sub full server :
   wf_bytes ty -> wf_bytes nm -> wf_bytes host ->
   si_names ty nm host = Ok (tyd, sub, full, server) ->
-  api_register ty nm host = Ok tt ->
+  api_register lc ty nm host = Ok tt ->
   forallb label_ok (name_labels full) = true
   /\ forallb label_ok (name_labels tyd) = true
   /\ forallb label_ok (name_labels server) = true
@@ -816,17 +838,34 @@ Proof.
   assert (Wfull : wf_bytes full).
   { subst full. apply wf_bytes_app; [apply escape_label_wf; exact Wnm|]. constructor; [unfold DOT; lia|exact Wtyd]. }
   assert (Lfull : forallb label_ok (name_labels full) = true)
-    by (apply labels_fit_label_ok; [exact Wfull|apply check_label_lengths_ok; exact H1]).
+    by (apply labels_fit_label_ok; [exact Wfull|apply (check_label_lengths_ok lc); exact H1]).
   split; [exact Lfull|]. split.
   - apply forallb_Forall. apply forallb_Forall in Lfull. rewrite Ef in Lfull.
     eapply fullname_type_labels. exact Lfull.
   - split.
-    + apply labels_fit_label_ok; [exact (normalize_hostname_wf host server Whost En)|apply check_label_lengths_ok; exact H2].
+    + apply labels_fit_label_ok; [exact (normalize_hostname_wf host server Whost En)|apply (check_label_lengths_ok lc); exact H2].
     + intros s Hs. subst sub.
       assert (s = ty).
       { unfold split_sub_domain in Hs. destruct (rfind_sub sub_marker ty); simpl in Hs; [inversion Hs; reflexivity|discriminate]. }
       subst s. rewrite Hs in H.
-      apply labels_fit_label_ok; [exact Wty|apply check_label_lengths_ok; exact H].
+      apply labels_fit_label_ok; [exact Wty|apply (check_label_lengths_ok lc); exact H].
+Qed.
+
+Lemma register_accepted_encodable_lower lc ty nm host tyd sub full server :
+  si_names ty nm host = Ok (tyd, sub, full, server) ->
+  api_register lc ty nm host = Ok tt ->
+  (wf_bytes (lc full) -> forallb label_ok (name_labels (lc full)) = true)
+  /\ (wf_bytes (lc server) -> forallb label_ok (name_labels (lc server)) = true)
+  /\ (forall s, sub = Some s -> wf_bytes (lc s) -> forallb label_ok (name_labels (lc s)) = true).
+Proof.
+  intros E H. unfold api_register in H. rewrite E in H. cbn [bind] in H.
+  unfold api_register_names in H.
+  apply bind_ok_unit in H as [_ H]. apply bind_ok_unit in H as [_ H].
+  apply bind_ok_unit in H as [H1 H]. apply bind_ok_unit in H as [H2 H].
+  repeat split.
+  - intros W. apply labels_fit_label_ok; [exact W|apply check_label_lengths_ok_lower; exact H1].
+  - intros W. apply labels_fit_label_ok; [exact W|apply check_label_lengths_ok_lower; exact H2].
+  - intros s Hs W. subst sub. apply labels_fit_label_ok; [exact W|apply check_label_lengths_ok_lower; exact H].
 Qed.
 
 (* ------------------------------------------------------------------------------------ *)
@@ -847,38 +886,47 @@ Proof.
   intros t pos. unfold write_name. apply write_labels_total. exact H.
 Qed.
 
-Lemma browse_accepted ty :
-  wf_bytes ty -> api_browse ty = Ok tt ->
-  Forall (fun l => 1 <= blen l /\ blen l <= 63) (name_labels ty)
-  /\ forall t pos, exists r, write_name t pos ty = Ok r.
-Proof. intros W H. apply encodable_conclusion, browse_accepted_encodable; assumption. Qed.
-
-Lemma resolve_accepted h :
-  wf_bytes h -> api_resolve_hostname h = Ok tt ->
-  Forall (fun l => 1 <= blen l /\ blen l <= 63) (name_labels h)
-  /\ forall t pos, exists r, write_name t pos h = Ok r.
-Proof. intros W H. apply encodable_conclusion, resolve_accepted_encodable; assumption. Qed.
-
 Definition enc_ok (name : bytes) : Prop :=
   Forall (fun l => 1 <= blen l /\ blen l <= 63) (name_labels name)
   /\ forall t pos, exists r, write_name t pos name = Ok r.
 
-Lemma register_accepted ty nm host tyd sub full server :
-  wf_bytes ty -> wf_bytes nm -> wf_bytes host ->
-  si_names ty nm host = Ok (tyd, sub, full, server) ->
-  api_register ty nm host = Ok tt ->
-  enc_ok full /\ enc_ok tyd /\ enc_ok server /\ (forall s, sub = Some s -> enc_ok s).
+(* accepted names are encodable as given AND in the lower-cased spelling `lc name` (whatever
+   function lc is; its results only have to be byte strings) *)
+Lemma browse_accepted lc ty :
+  wf_bytes ty -> wf_bytes (lc ty) -> api_browse lc ty = Ok tt -> enc_ok ty /\ enc_ok (lc ty).
 Proof.
-  intros W1 W2 W3 E H.
-  destruct (register_accepted_encodable ty nm host tyd sub full server W1 W2 W3 E H) as (A & B & C & D).
-  repeat split; try (apply encodable_conclusion; assumption).
-  - apply (proj1 (encodable_conclusion s (D s H0))).
-  - apply (proj2 (encodable_conclusion s (D s H0))).
+  intros W Wl H. split; apply encodable_conclusion;
+    [eapply browse_accepted_encodable|eapply browse_accepted_encodable_lower]; eassumption.
 Qed.
 
-Lemma register_total ty nm host :
+Lemma resolve_accepted lc h :
+  wf_bytes h -> wf_bytes (lc h) -> api_resolve_hostname lc h = Ok tt -> enc_ok h /\ enc_ok (lc h).
+Proof.
+  intros W Wl H. split; apply encodable_conclusion;
+    [eapply resolve_accepted_encodable|eapply resolve_accepted_encodable_lower]; eassumption.
+Qed.
+
+Lemma register_accepted lc ty nm host tyd sub full server :
+  wf_bytes ty -> wf_bytes nm -> wf_bytes host ->
+  si_names ty nm host = Ok (tyd, sub, full, server) ->
+  api_register lc ty nm host = Ok tt ->
+  enc_ok full /\ enc_ok tyd /\ enc_ok server /\ (forall s, sub = Some s -> enc_ok s)
+  /\ (wf_bytes (lc full) -> enc_ok (lc full)) /\ (wf_bytes (lc server) -> enc_ok (lc server))
+  /\ (forall s, sub = Some s -> wf_bytes (lc s) -> enc_ok (lc s)).
+Proof.
+  intros W1 W2 W3 E H.
+  destruct (register_accepted_encodable lc ty nm host tyd sub full server W1 W2 W3 E H) as (A & B & C & D).
+  destruct (register_accepted_encodable_lower lc ty nm host tyd sub full server E H) as (A' & C' & D').
+  split; [apply encodable_conclusion; exact A|]. split; [apply encodable_conclusion; exact B|].
+  split; [apply encodable_conclusion; exact C|]. split; [intros s Hs; apply encodable_conclusion; exact (D s Hs)|].
+  split; [intros W; apply encodable_conclusion; exact (A' W)|].
+  split; [intros W; apply encodable_conclusion; exact (C' W)|].
+  intros s Hs W. apply encodable_conclusion. exact (D' s Hs W).
+Qed.
+
+Lemma register_total lc ty nm host :
   utf8_valid ty = true -> utf8_valid nm = true -> utf8_valid host = true ->
-  (exists r, si_names ty nm host = Ok r) /\ safe (api_register ty nm host).
+  (exists r, si_names ty nm host = Ok r) /\ safe (api_register lc ty nm host).
 Proof.
   intros H1 H2 _. split; [apply si_names_total|apply api_register_total; assumption].
 Qed.
@@ -975,10 +1023,10 @@ Proof.
 Qed.
 
 (* the argument checks of register(), as used by the command-queue model (C14) *)
-Lemma register_names_safe ty nm host tyd sub full server :
+Lemma register_names_safe lc ty nm host tyd sub full server :
   utf8_valid ty = true -> utf8_valid nm = true ->
   si_names ty nm host = Ok (tyd, sub, full, server) ->
-  safe (api_register_names full server sub).
+  safe (api_register_names lc full server sub).
 Proof.
   intros Hty Hnm E. apply si_names_fullname in E as (-> & _ & -> & _).
   apply api_register_names_total. apply wfs_nca.
@@ -1473,13 +1521,13 @@ Lemma read_name_fit_rejects_merged :
   read_name_fit [rep 97 40 ++ [BSL]; rep 98 40; [95;120]; [95;116;99;112]; [108;111;99;97;108]] = Err.
 Proof. vm_compute. reflexivity. Qed.
 
-Lemma validators_total s :
+Lemma validators_total lc s :
   utf8_valid s = true ->
   safe (check_domain_suffix s) /\ safe (check_service_name s)
   /\ (forall lim, safe (check_service_name_length s lim)) /\ safe (check_hostname s)
-  /\ safe (check_label_lengths s) /\ safe (name_change s) /\ safe (hostname_change s)
+  /\ safe (check_label_lengths lc s) /\ safe (name_change s) /\ safe (hostname_change s)
   /\ (exists r, normalize_hostname s = Ok r)
-  /\ safe (api_browse s) /\ safe (api_resolve_hostname s).
+  /\ safe (api_browse lc s) /\ safe (api_resolve_hostname lc s).
 Proof.
   intros H. repeat split;
     try apply check_domain_suffix_total; try apply (check_service_name_total s H);
